@@ -326,11 +326,12 @@ def evaluate(cmdline: str, dialect: str = "bash") -> list[Command]:
 # validation against the real shells with stub programs that print their argv
 
 STUB = """#!/bin/sh
-# stub: print program name and every argument, NUL-terminated, then stdin
+# stub: print program name and every argument, NUL-terminated, then stdin (shell builtins only: one process per invocation)
 printf 'ARGV\\0%s\\0' "${0##*/}"
 for a in "$@"; do printf '%s\\0' "$a"; done
 printf 'STDIN\\0'
-cat
+while IFS= read -r l; do printf '%s\\n' "$l"; done
+[ -n "$l" ] && printf '%s' "$l"
 printf '\\0ENDINV\\0'
 """
 _SEP = "printf '\\0ENDCMD\\0'"
@@ -346,7 +347,7 @@ def make_stub_dir():
     return d
 
 
-def run_real_many(cmdlines, shell: str, stubdir: str, timeout=300):
+def run_real_many(cmdlines, shell: str, stubdir: str, timeout=1800):
     """run several command lines in one real shell process (each followed by a separator print);
     -> per command line: list of stub invocations [(argv bytes list, stdin bytes)]"""
     env = {"PATH": stubdir + ":/usr/bin:/bin", "LC_ALL": "C.UTF-8", "HOME": stubdir}
@@ -367,7 +368,7 @@ def run_real_many(cmdlines, shell: str, stubdir: str, timeout=300):
     return res, p.returncode, p.stderr.decode("utf-8", "replace")
 
 
-def run_real(cmdline: str, shell: str, stubdir: str, timeout=300):
+def run_real(cmdline: str, shell: str, stubdir: str, timeout=1800):
     res, rc, err = run_real_many([cmdline], shell, stubdir, timeout)
     return (res[0] or []), rc, err
 
